@@ -9,6 +9,7 @@ package h2relay
 
 import (
 	"bytes"
+	"encoding/binary"
 	"fmt"
 	"io"
 	"sort"
@@ -177,6 +178,12 @@ type Exec struct {
 
 	fromEP, toEP [2]*bytes.Buffer
 	wr, rd       [2]*http2.Framer
+	// strict[e] reads a copy of everything endpoint e receives the way an endpoint that enforces
+	// the SETTINGS_MAX_FRAME_SIZE it advertised does (Framer.SetMaxReadFrameSize): a larger frame
+	// is a FRAME_SIZE_ERROR (http2.ErrFrameTooLarge) and nothing after it is delivered.
+	strict       [2]*http2.Framer
+	strictBuf    [2]*bytes.Buffer
+	strictOff    [2]bool
 	dec          [2]*hpack.Decoder // decoder of endpoint e (decodes what e receives)
 	mirror       [2]*hpack.Decoder // mirrors endpoint e's own encoder (real-HPACK cases only)
 	realHpack    bool
@@ -203,6 +210,8 @@ func NewExec(prop string) *Exec {
 		x.fromEP[e], x.toEP[e] = &bytes.Buffer{}, &bytes.Buffer{}
 		x.wr[e] = http2.NewFramer(x.fromEP[e], bytes.NewReader(nil))
 		x.rd[e] = http2.NewFramer(io.Discard, x.toEP[e])
+		x.strictBuf[e] = &bytes.Buffer{}
+		x.strict[e] = http2.NewFramer(io.Discard, x.strictBuf[e])
 		x.dec[e] = hpack.NewDecoder(4096, nil)
 		x.mirror[e] = hpack.NewDecoder(4096, nil)
 		x.exp[e] = map[uint32][]*ev{}
@@ -549,7 +558,69 @@ func (x *Exec) Do(op string) core.Result {
 	for r := 0; r < 2; r++ { // receiving endpoint r; the frames travelled in direction 1-r
 		dir := 1 - r
 		var blk *pendingBlockRx
+		// the enforcing reader first (on a copy; the permissive reader below renders every frame)
+		rejected := ""
+		if !x.strictOff[r] && x.toEP[r].Len() > 0 {
+			x.strictBuf[r].Write(x.toEP[r].Bytes())
+			x.strict[r].SetMaxReadFrameSize(uint32(x.rMax[dir]))
+			for x.strictBuf[r].Len() > 0 {
+				if _, serr := x.strict[r].ReadFrame(); serr != nil {
+					x.strictOff[r] = true
+					x.strictBuf[r].Reset()
+					if serr == http2.ErrFrameTooLarge {
+						rejected = serr.Error()
+					}
+					break
+				}
+			}
+		}
+		checkSize := func(ty http2.FrameType, sid uint32, hl int64) {
+			switch ty { // the frame types the relay builds itself (control frames are copied as sent)
+			case http2.FrameData, http2.FrameHeaders, http2.FrameContinuation, http2.FramePushPromise:
+			default:
+				return
+			}
+			if hl > x.rMax[dir] {
+				// C08: an endpoint enforcing the limit it advertised answers FRAME_SIZE_ERROR, so this
+				// frame (DATA, or a header block) and everything after it is not delivered; C09: clause
+				// `frame_within_max`.
+				core.Count("oracle:frame-exceeds-max")
+				for _, p := range []string{"c08", "c09"} {
+					fail(p+":frame-exceeds-max", "endpoint %d received a %v frame on stream %d with a payload of %d bytes, its MAX_FRAME_SIZE is %d (a Framer with SetMaxReadFrameSize(%d): %q)", r, ty, sid, hl, x.rMax[dir], x.rMax[dir], rejected)
+				}
+			}
+		}
 		for x.toEP[r].Len() > 0 {
+			// A PUSH_PROMISE continued by CONTINUATION frames (what the relay emits for a block that
+			// does not fit one frame) cannot be read by this x/net Framer (checkFrameOrder tracks
+			// HEADERS only): those frames are parsed by hand.
+			if raw := x.toEP[r].Bytes(); len(raw) >= 9 {
+				ln := int(raw[0])<<16 | int(raw[1])<<8 | int(raw[2])
+				ty, fl := http2.FrameType(raw[3]), http2.Flags(raw[4])
+				sid := binary.BigEndian.Uint32(raw[5:9]) & (1<<31 - 1)
+				openPP := ty == http2.FramePushPromise && fl&http2.FlagPushPromiseEndHeaders == 0 && fl&http2.FlagPushPromisePadded == 0 && ln >= 4 && blk == nil
+				contPP := ty == http2.FrameContinuation && blk != nil && blk.push && blk.sid == sid
+				if (openPP || contPP) && len(raw) >= 9+ln {
+					pl := append([]byte{}, x.toEP[r].Next(9 + ln)[9:]...)
+					checkSize(ty, sid, int64(ln))
+					core.Count("rx:continued-push-promise-frames")
+					if openPP {
+						if !seen[sid] && r == e {
+							seen[sid] = true
+							firstSeen = append(firstSeen, sid)
+						}
+						blk = &pendingBlockRx{sid: sid, push: true, promised: binary.BigEndian.Uint32(pl[:4]) & (1<<31 - 1), frag: pl[4:], lens: []int{len(pl) - 4}}
+						continue
+					}
+					blk.frag = append(blk.frag, pl...)
+					blk.lens = append(blk.lens, len(pl))
+					if fl&http2.FlagContinuationEndHeaders != 0 {
+						rendered[r] = append(rendered[r], x.recvBlock(dir, r, blk, fail))
+						blk = nil
+					}
+					continue
+				}
+			}
 			f, rerr := x.rd[r].ReadFrame()
 			if rerr != nil {
 				fail("c08:invalid-output", "endpoint %d cannot parse what the relay sent: %v", r, rerr)
@@ -558,12 +629,7 @@ func (x *Exec) Do(op string) core.Result {
 				break
 			}
 			hl := int64(f.Header().Length)
-			switch f.Header().Type {
-			case http2.FrameData, http2.FrameHeaders, http2.FrameContinuation, http2.FramePushPromise:
-				if hl > x.rMax[dir] {
-					fail("c09:frame-exceeds-max", "endpoint %d received a %v frame of %d bytes, its MAX_FRAME_SIZE is %d", r, f.Header().Type, hl, x.rMax[dir])
-				}
-			}
+			checkSize(f.Header().Type, f.Header().StreamID, hl)
 			note := func(sid uint32) {
 				if !seen[sid] && r == e {
 					seen[sid] = true
